@@ -177,12 +177,17 @@ def decode_template(bs):
     return tuple(out)
 
 
+UNFOLD = None      # when a set: every Evaluator unfolds calls of these local functions (second analysis of `vf check`)
+
+
 class Evaluator:
     """Evaluates THIR expressions of one program to terms."""
 
     def __init__(self, prog, inline_local=(), max_depth=6):
         self.prog = prog
         self.inline_local = set(inline_local)   # local fn paths to inline at call sites
+        if UNFOLD and not getattr(prog, "is_fixture", False):
+            self.inline_local |= {p for p in UNFOLD if p in prog.bodies}
         self.max_depth = max_depth
         self._summ = {}
         self.pc = []               # path condition stack: ("if", cond, polarity) / ("arm", scrut, pat, guard)
